@@ -61,6 +61,10 @@ def last_of(p):
     return p[-1]
 
 
+class _SubArr(np.ndarray):
+    pass
+
+
 def inputs():
     """(label, builder) pairs; builders give a fresh object every time.  Groups of inputs whose values compare equal but
     are of different kinds are adjacent, so a memo keyed by value or by position shows up"""
@@ -74,6 +78,11 @@ def inputs():
         ("tuple ints", lambda: (1, 0, 1, 1)), ("tuple bools", lambda: (True, False, True, True)),
         ("array ints 1/0", lambda: np.array([1, 0, 1, 1])), ("array bools", lambda: np.array([True, False, True, True])),
         ("array floats", lambda: np.array([1.0, 0.0, 1.0, 1.0])), ("array float 1.5", lambda: np.array([1.5, 0.0, 1.0, 1.0])),
+        # views, strided and non-contiguous arrays, subclasses: still the caller's object
+        ("array reversed view", lambda: np.array([1.5, 2.5, 3.5])[::-1]), ("array strided", lambda: np.arange(6)[::2]),
+        ("array column of a table", lambda: np.array([[1.5, 2.0], [3.5, 4.0]])[:, 0]), ("array bool strided", lambda: np.array([True, False, True, True])[::2]),
+        ("array string reversed", lambda: np.array(["a", "b", "c"])[::-1]), ("ndarray subclass", lambda: np.array([1, 2, 3]).view(_SubArr)),
+        ("array fortran order", lambda: np.asfortranarray(np.array([[1, 2], [3, 4]]))[0]),
         # the same name / dtype / length with other contents
         ("named a: whole floats", lambda: S([1.0, 2.0, 3.0], name="a")), ("named a: fractions", lambda: S([1.5, 2.0, 3.0], name="a")),
         ("named z: zero imag", lambda: S([3 + 0j, 1 + 0j], name="z")), ("named z: imag", lambda: S([3 + 4j, 1 + 0j], name="z")),
@@ -251,8 +260,18 @@ def check_one(ts, fresh_cls, label, build, fails, tsname):
                 if not last_a or not nx.has_path(gb, last_a[0], ipath[-1]) or got[1] != [str(t) for t in ipath][:len(got[1])]:
                     add("C15", "chain-typeset-infer", "A = %s infers along %s, B = %s along %s: not a prefix of it" % (sorted(map(str, closure)), got[1], tsname, [str(t) for t in ipath]),
                         also=["C03"])
-    # --- the caller edits the container in place and asks again (same typeset instance)
+    # --- the caller edits the container in place and asks again (same typeset instance; membership of every type too)
+    all_types = sorted(ts.types, key=str)
+    mem_before = {str(t): outcome(lambda: bool(x in t)) for t in all_types} if not is_frame else {}
     if edit_in_place(x):
+        if not is_frame:
+            zc = copy.deepcopy(x)
+            for t in all_types:
+                a_, b_ = outcome(lambda: bool(x in t)), outcome(lambda: bool(zc in t))
+                if a_ != b_ and a_[0] == "ok" and b_[0] == "ok":
+                    add("C10", "stale-membership-after-edit", "after an in-place edit `x in %s` is %s, for an equal fresh copy it is %s (it was %s before the edit)"
+                        % (t, a_[1], b_[1], mem_before[str(t)][1]), also=["C01", "C05", "C16"])
+                    break
         z = copy.deepcopy(x)
         fresh2 = fresh_cls()
         r_i = outcome(lambda: fresh2.infer(z))
@@ -284,6 +303,44 @@ def _coerces(ts, path):
     return False
 
 
+def fs_scenario(fails):
+    """the file system changes between two calls: a column of absolute paths is a Path while the files do not exist, a File
+    once they do, a Path again after they are removed — whatever was asked before (C07: existing files are recognised; C10)"""
+    import pathlib
+    import shutil
+    import tempfile
+    from common import WORK, ensure_dirs
+    ensure_dirs()
+    d = tempfile.mkdtemp(prefix="apifs_", dir=WORK)
+    n = 0
+    try:
+        names = [pathlib.Path(d) / "a.txt", pathlib.Path(d) / "b.bin"]
+        makers = {"object series": lambda: pd.Series(list(names), dtype=object), "series with None": lambda: pd.Series([names[0], None, names[1]], dtype=object),
+                  "list": lambda: list(names)}
+        for label, mk in makers.items():
+            ts = CompleteSet()
+            for step, exists, want in (("before the files exist", False, "Path"), ("after the files were written", True, "File"),
+                                       ("after the files were removed", False, "Path"), ("after they were written again", True, "File")):
+                for p_ in names:
+                    if exists:
+                        p_.write_text("x")
+                    elif p_.exists():
+                        p_.unlink()
+                for entry, fn in (("infer_type", lambda: str(ts.infer_type(mk()))), ("detect_type", lambda: str(ts.detect_type(mk()))),
+                                  ("fresh typeset infer_type", lambda: str(CompleteSet().infer_type(mk())))):
+                    got = outcome(fn)
+                    n += 1
+                    if got != ["ok", want]:
+                        for prop, also in (("C07", ["C10"]),):
+                            fails.append({"property": prop, "also": also, "signature": "api:files-%s" % ("not-recognised" if want == "File" else "stale"),
+                                          "what": "[CompleteSet] %s of absolute paths, %s: %s = %s, expected %s" % (label, step, entry, got[1], want),
+                                          "recipe": {"input": "paths: " + label, "step": step}})
+                        return n
+    finally:
+        shutil.rmtree(d, ignore_errors=True)
+    return n
+
+
 def run(tier, seed):
     rng = rng_for(seed, "api")
     fails = []
@@ -312,6 +369,7 @@ def run(tier, seed):
                     fails.append({"property": "C09", "signature": "api:harness", "what": "harness crash on %s: %s" % (label, traceback.format_exc()[-300:]),
                                   "recipe": {"input": label}, "also": []})
                 n += 1
+    n += fs_scenario(fails)
     # one failure per (property, signature, input) is enough
     seen, uniq = set(), []
     for f in fails:
